@@ -9,6 +9,7 @@ import ConfModel.Lemmas.Run
 import ConfModel.Lemmas.ClientPipe
 import ConfModel.Lemmas.ClientWait
 import ConfModel.Props.C08
+import ConfModel.Props.C04
 namespace ConfModel.Props.C05
 open ConfModel.Run ConfModel.Trie ConfModel.Glob
 
@@ -335,6 +336,76 @@ theorem batch_wait_counter_sound (names : Nat → ClientRunner.Name) (evs : List
       ClientRunner.wgAdds (ClientRunner.run names ClientRunner.init evs) ids :=
   ClientRunner.wg_le names _ (ClientRunner.reachable_inv names evs) ids
 
+/-! ### the bound as the command line sets it -/
+
+/-- **`--port P` means one server at a time.**  For every invocation the command line accepts with a
+non-zero `--port` (whatever `--max-servers` defaults to; an explicit value above one is refused:
+C04 `port_with_more_servers_refused`), the dispatching system runs with ONE permit: in any state
+reached by any schedule of any number of batches, at most one server is alive — two reference
+servers never compete for port P. -/
+theorem cli_port_one_server_at_a_time (a : Cli.Args) (p : Cli.Plan) (h : Cli.run a = .proceed p) (hp : a.port ≠ 0)
+    (n : Nat) (evs : List Ev) : aliveCount (execSys p.maxServers (initSys n) evs).threads ≤ 1 := by
+  have h1 := ConfModel.Props.C04.port_implies_single_server a p h hp
+  have := (dispatch_bounded p.maxServers n evs).1
+  omega
+
+/-- **Without a port the bound is the `--max-servers` given, or its default**: never more servers
+alive than the flag's value. -/
+theorem cli_servers_bounded (a : Cli.Args) (p : Cli.Plan) (h : Cli.run a = .proceed p) (hp : a.port = 0)
+    (n : Nat) (evs : List Ev) : aliveCount (execSys p.maxServers (initSys n) evs).threads ≤ a.maxServers := by
+  have h1 := (ConfModel.Props.C04.no_port_keeps_max_servers a p h hp).1
+  have := (dispatch_bounded p.maxServers n evs).1
+  omega
+
+/-! ### gRPC-peer permutations go out under their marked names -/
+
+/-- **Shape of a marked name.**  A full name is `prefix ++ simple` (suite, axis components, then the
+components of the test's own name); its marked name is the prefix, the marker as ONE component,
+then the simple name: the marker sits immediately before the ENDING that is the simple name —
+wherever else the same components occur (test `a` of suite `a`, test `TLS`, a test named like its
+suite): the first `prefix.length` components are untouched and what follows the marker is the simple
+name. -/
+theorem marked_name_shape (pre simple : List String) (m : String) :
+    markName (pre ++ simple) simple m = pre ++ m :: simple ∧
+    (markName (pre ++ simple) simple m).take pre.length = pre ∧
+    (markName (pre ++ simple) simple m).drop (pre.length + 1) = simple ∧
+    (markName (pre ++ simple) simple m)[pre.length]? = some m := by
+  rw [markName_shape]
+  refine ⟨rfl, by simp, by simp, by simp⟩
+
+/-- **The marked name determines the permutation**: two permutations whose names do not contain the
+marker as a component and whose marked names are equal have the same prefix and the same simple name
+— hence the same full name. -/
+theorem marked_name_injective (p1 s1 p2 s2 : List String) (m : String)
+    (h1 : m ∉ p1 ++ s1) (h2 : m ∉ p2 ++ s2)
+    (h : markName (p1 ++ s1) s1 m = markName (p2 ++ s2) s2 m) : p1 = p2 ∧ s1 = s2 :=
+  markName_inj p1 s1 p2 s2 m h1 h2 h
+
+/-- **A library without duplicates has marked names without duplicates, none of which is a plain
+name**: with pairwise distinct full names (C07 `names_unique`) that do not contain the marker, the
+gRPC-peer permutations get pairwise distinct names, different from every plain name — so the
+duplicate-name refusal of the client runner (`duplicates_refused`) never drops one of them, and every
+one can be selected by a pattern of its own. -/
+theorem marked_names_distinct (m : String) (lib : List (List String × List String))
+    (hn : (lib.map (fun e => e.1 ++ e.2)).Nodup) (hm : ∀ e ∈ lib, m ∉ e.1 ++ e.2) :
+    (lib.map (fun e => markName (e.1 ++ e.2) e.2 m)).Nodup ∧
+    ∀ e ∈ lib, markName (e.1 ++ e.2) e.2 m ∉ lib.map (fun e => e.1 ++ e.2) := by
+  refine ⟨marked_nodup m lib hn hm, ?_⟩
+  intro e _ hmem
+  obtain ⟨e', he', heq⟩ := List.mem_map.mp hmem
+  have : m ∈ e'.1 ++ e'.2 := by rw [heq, markName_shape]; simp
+  exact hm e' he' this
+
+/-- Why it must be the ENDING: cutting the full name where the simple name occurs FIRST maps all
+permutations of test `a` in suite `a` (and of a test named like an axis component) onto one name. -/
+theorem marker_before_last_occurrence :
+    markAtFirst ["a", "HTTPVersion:1", "TLS:false", "a"] ["a"] grpcServerMarker =
+      markAtFirst ["a", "HTTPVersion:2", "TLS:false", "a"] ["a"] grpcServerMarker ∧
+    markName ["a", "HTTPVersion:1", "TLS:false", "a"] ["a"] grpcServerMarker = ["a", "HTTPVersion:1", "TLS:false", grpcServerMarker, "a"] ∧
+    markName ["a", "HTTPVersion:2", "TLS:false", "a"] ["a"] grpcServerMarker = ["a", "HTTPVersion:2", "TLS:false", grpcServerMarker, "a"] ∧
+    markAtFirst ["S", "TLS:false", "x", "TLS:false"] ["TLS:false"] grpcServerMarker = ["S", grpcServerMarker, "TLS:false"] ∧
+    markAtFirst ["S", "TLS:false", "x"] ["x"] grpcServerMarker = markName ["S", "TLS:false", "x"] ["x"] grpcServerMarker := by decide
+
 /-! Non-vacuity. -/
 private def pa : Perm := ⟨["S", "a"], ⟨1, 1, false, false⟩⟩
 private def pb : Perm := ⟨["S", "b"], ⟨2, 2, false, false⟩⟩
@@ -382,5 +453,21 @@ example : let s := ClientRunner.run (fun i => 10 + i) ClientRunner.init twoBatch
     ClientRunner.Spec.cbsOf s 0 = [none] ∧ ClientRunner.Spec.cbsOf s 1 = [none] ∧
     ClientRunner.wgAdds s [1, 2] = 2 ∧ ClientRunner.wgDones s [1, 2] = 2 ∧
     ClientRunner.batchWaitPasses s [0] = true ∧ ClientRunner.batchWaitPasses s [1, 2] = true := by decide
+
+/-- `cli_port_one_server_at_a_time` / `cli_servers_bounded`: `--mode client --port 8080 -- client` is
+accepted with one permit although --max-servers is left at 4; `--mode both -- c ---- s` keeps 4 -/
+example : Cli.run { mode := "client", command := ["client"], port := 8080, portGiven := true } =
+      .proceed { client := ["client"], server := [], maxServers := 1, parallel := 64 } ∧
+    Cli.run { mode := "both", command := ["c", "----", "s"] } =
+      .proceed { client := ["c"], server := ["s"], maxServers := 4, parallel := 64 } := by decide
+
+/-- `marked_name_injective` / `marked_names_distinct`: a library in which the test's name repeats
+itself: suite `a` with tests `a` and `a/a`, two HTTP versions -/
+private def libA : List (List String × List String) :=
+  [(["a", "HTTPVersion:1"], ["a"]), (["a", "HTTPVersion:2"], ["a"]), (["a", "HTTPVersion:1"], ["a", "a"]), (["a", "HTTPVersion:2"], ["a", "a"])]
+example : (libA.map (fun e => e.1 ++ e.2)).Nodup ∧ (∀ e ∈ libA, grpcServerMarker ∉ e.1 ++ e.2) ∧
+    libA.map (fun e => markName (e.1 ++ e.2) e.2 grpcServerMarker) =
+      [["a", "HTTPVersion:1", grpcServerMarker, "a"], ["a", "HTTPVersion:2", grpcServerMarker, "a"],
+       ["a", "HTTPVersion:1", grpcServerMarker, "a", "a"], ["a", "HTTPVersion:2", grpcServerMarker, "a", "a"]] := by decide
 
 end ConfModel.Props.C05
